@@ -31,9 +31,9 @@ var errReader = errors.New("injected reader failure")
 type countingReader struct {
 	data     []byte
 	off      int
-	chunk    int   // max bytes per Read (0 = unlimited)
-	errAt    int   // return errReader once off reaches errAt (-1: never)
-	errWith  bool  // deliver the final bytes together with the error
+	chunk    int  // max bytes per Read (0 = unlimited)
+	errAt    int  // return errReader once off reaches errAt (-1: never)
+	errWith  bool // deliver the final bytes together with the error
 	consumed int
 	calls    int
 }
